@@ -560,6 +560,9 @@ fn stalled_dropper(p: &Params) -> Program {
 fn handover_into_reclaimed(p: &Params) -> Program {
     let age = p.get("age", 4) as usize;
     Program {
+        // (the three interruptions it needs are at an epoch read and at two dereferences of the
+        // driver: the points at link accesses are left out to keep the space small)
+        classes: p.get("classes", ((1 << crate::sched::CLASS_STATE) | (1 << crate::sched::CLASS_EPOCH_READ)) as i64) as u8,
         setup: Some(body(move |c, w| {
             build_chain2(c, w, 0, 0);
             let g = c.pin();
